@@ -145,7 +145,7 @@ func subTLDGen(out string, seed uint64, tier string, arg string) {
 		// direct oracle, independent of the model: no emitted row may carry an unparseable date or a removal before its delegation
 		if strings.HasPrefix(l, "gen\t") && res[i] != "err" {
 			if strings.HasPrefix(res[i], "rows-not-keyed") || strings.HasPrefix(res[i], "panic") {
-				rep.violate(Violation{Property: "C18", Key: "generator-rows", What: "renderGTLDMap wrote a row not keyed by its own name, or panicked: "+res[i], Replay: toReplay(map[string]string{"op": l}, true)})
+				rep.violate(Violation{Property: "C18", Key: "generator-rows", What: "renderGTLDMap wrote a row not keyed by its own name, or panicked: " + res[i], Replay: toReplay(map[string]string{"op": l}, true)})
 				continue
 			}
 			for _, row := range strings.Split(res[i], ",") {
